@@ -1,1 +1,793 @@
+//! `otlayout` — an independent OpenType Layout application engine (a mini shaper).
+//!
+//! Part of the trusted base of the fontc verification framework: it takes the bytes of a
+//! compiled font and *applies* GSUB / GPOS / GDEF to glyph-id strings the way the OpenType
+//! specification prescribes, so that checks can judge the compiler's output by behaviour.
+//!
+//! Table *parsing* is delegated to read-fonts typed tables (`write_fonts::read`). Everything
+//! that is evaluation is written here from the spec: coverage / class lookup ([`cov`]),
+//! ItemVariationStore interpolation ([`ivs`]), script / language / feature selection,
+//! FeatureVariations condition evaluation, lookup-flag filtering through GDEF, and the
+//! application of every GSUB (1-8) and GPOS (1-9) lookup type.
+//!
+//! Where the spec leaves behaviour open the engine follows HarfBuzz's reading, because that
+//! is what the produced fonts are shaped with in practice:
+//!
+//! * lookups of all selected features are applied in ascending lookup-index order, each one
+//!   over the whole glyph string, left to right (GSUB type 8: right to left);
+//! * at each position the first subtable that matches wins and the cursor moves past the
+//!   matched *input* sequence (pair positioning: to the second glyph if valueFormat2 is 0,
+//!   otherwise past it);
+//! * a lookup is tried at a position only if the glyph there is not ignored by the lookup's
+//!   flags; "next"/"previous" glyph searches skip ignored glyphs;
+//! * contextual lookups apply their nested lookups once, at the recorded sequence index,
+//!   with the nested lookup's own flags, and the match positions are re-based when a nested
+//!   substitution changes the string length (HarfBuzz `apply_lookup`);
+//! * ligature substitution keeps skipped marks after the ligature glyph and tags them with
+//!   the component they followed; mark-to-ligature uses that component.
+//!
+//! Known, deliberate simplifications are listed in the crate README section of the final
+//! report and at the items concerned (`shape`, `apply_lookup`).
+//!
+//! The engine always terminates: nested lookups are depth-limited ([`MAX_NESTING`]), every
+//! subtable application is charged against an operation budget ([`MAX_OPS`]) and the glyph
+//! string cannot grow beyond [`MAX_BUFFER_LEN`]. Hitting a limit, or a table that fails to
+//! parse, is reported in `problems` of the result, never silently ignored.
 
+pub mod cov;
+pub mod ivs;
+
+mod apply;
+mod gpos;
+mod gsub;
+
+use serde::{Deserialize, Serialize};
+use write_fonts::read::{
+    FontRef, TableProvider,
+    tables::{
+        gdef::{Gdef, MarkGlyphSets},
+        gpos::Gpos,
+        gsub::Gsub,
+        layout::{
+            ClassDef, Condition, ConditionSet, FeatureList, FeatureVariations, LangSys,
+            ScriptList,
+        },
+        variations::ItemVariationStore,
+    },
+    types::Tag,
+};
+
+/// Maximum depth of nested (contextual) lookup application.
+pub const MAX_NESTING: u32 = 16;
+/// Maximum number of subtable applications attempted by one `apply_lookup` call.
+pub const MAX_OPS: u64 = 2_000_000;
+/// Maximum glyph string length; substitutions that would exceed it are refused.
+pub const MAX_BUFFER_LEN: usize = 16_384;
+/// Maximum number of positions tracked for one contextual match (as HarfBuzz).
+pub const MAX_CONTEXT_LEN: usize = 64;
+
+/// Which layout table.
+#[derive(Clone, Copy, Debug, PartialEq, Eq, Hash, PartialOrd, Ord, Serialize, Deserialize)]
+pub enum Table {
+    Gsub,
+    Gpos,
+}
+
+/// How a glyph is attached to the glyph in `attached_to`.
+#[derive(Clone, Copy, Debug, PartialEq, Eq, Serialize, Deserialize)]
+pub enum AttachKind {
+    /// GPOS 4, 5, 6
+    Mark,
+    /// GPOS 3
+    Cursive,
+}
+
+/// One glyph of the buffer / of the shaping result.
+///
+/// Positions are *adjustments*: `x_advance_adj` is what GPOS adds to the glyph's hmtx
+/// advance; `x_offset`/`y_offset` is the placement shift. For a glyph with
+/// `attached_to == Some(j)` and `attach_kind == Some(Mark)` the offset is
+/// `anchor(glyph j) - anchor(this mark)`, i.e. the position of the mark's origin relative
+/// to the origin of glyph `j` (no advance back-tracking; chains are *not* accumulated, see
+/// [`ShapeResult::offset_from_root`]).
+#[derive(Clone, Debug, PartialEq, Serialize, Deserialize)]
+pub struct ShapedGlyph {
+    pub gid: u16,
+    pub x_advance_adj: f64,
+    pub y_advance_adj: f64,
+    pub x_offset: f64,
+    pub y_offset: f64,
+    /// Index (in the same glyph vector) of the glyph this one is attached to.
+    pub attached_to: Option<usize>,
+    pub attach_kind: Option<AttachKind>,
+    /// For a glyph produced by a ligature substitution: the number of components it
+    /// stands for (sum of the components' own counts); 0 otherwise.
+    pub lig_components: u8,
+    /// For a mark that was skipped inside / follows a ligature: the 1-based component it
+    /// belongs to; for the outputs of a multiple substitution the 0-based position in the
+    /// sequence; 0 otherwise.
+    pub lig_comp_index: u8,
+    /// Identity of the ligature the two fields above refer to (0 = none).
+    pub lig_id: u32,
+    /// Index into the original input string this glyph descends from (first component for
+    /// ligatures). Evidence only, never used for matching.
+    pub cluster: usize,
+}
+
+impl ShapedGlyph {
+    pub fn new(gid: u16, cluster: usize) -> Self {
+        ShapedGlyph {
+            gid,
+            x_advance_adj: 0.0,
+            y_advance_adj: 0.0,
+            x_offset: 0.0,
+            y_offset: 0.0,
+            attached_to: None,
+            attach_kind: None,
+            lig_components: 0,
+            lig_comp_index: 0,
+            lig_id: 0,
+            cluster,
+        }
+    }
+}
+
+/// The glyph string lookups are applied to.
+///
+/// `attached_to` indices are only meaningful while the string length does not change, so
+/// apply GSUB lookups before GPOS lookups (as `shape` does).
+#[derive(Clone, Debug, PartialEq, Serialize, Deserialize)]
+pub struct Buffer {
+    pub glyphs: Vec<ShapedGlyph>,
+    /// Next ligature id to hand out.
+    pub next_lig_id: u32,
+}
+
+impl Buffer {
+    pub fn from_glyphs(gids: &[u16]) -> Self {
+        Buffer {
+            glyphs: gids
+                .iter()
+                .enumerate()
+                .map(|(i, g)| ShapedGlyph::new(*g, i))
+                .collect(),
+            next_lig_id: 1,
+        }
+    }
+    pub fn gids(&self) -> Vec<u16> {
+        self.glyphs.iter().map(|g| g.gid).collect()
+    }
+    pub fn len(&self) -> usize {
+        self.glyphs.len()
+    }
+    pub fn is_empty(&self) -> bool {
+        self.glyphs.is_empty()
+    }
+}
+
+/// Which features of the selected language system are applied.
+#[derive(Clone, Debug, PartialEq, Serialize, Deserialize)]
+pub enum FeatureSel {
+    /// Every feature of the language system, including its required feature.
+    All,
+    /// Exactly the features with these tags (the required feature only if listed).
+    Only(Vec<String>),
+    /// The required feature, the features a default horizontal left-to-right shaper turns
+    /// on ([`DEFAULT_ON_FEATURES`]), plus these tags.
+    DefaultOnPlus(Vec<String>),
+}
+
+/// Features that are on by default for horizontal left-to-right text in HarfBuzz's default
+/// shaper (`frac`/`numr`/`dnom` are context dependent there and not included).
+pub const DEFAULT_ON_FEATURES: &[&str] = &[
+    "rvrn", "ltra", "ltrm", "abvm", "blwm", "ccmp", "locl", "mark", "mkmk", "rlig", "calt",
+    "clig", "curs", "dist", "kern", "liga", "rclt",
+];
+
+#[derive(Clone, Debug, PartialEq, Serialize, Deserialize)]
+pub struct ShapeRequest {
+    /// Script tag, e.g. "latn". Falls back to "DFLT" if the font does not have it.
+    pub script: String,
+    /// Language tag, e.g. "TRK "; "dflt" selects the default language system. Falls back to
+    /// the default language system if the script does not have it.
+    pub lang: String,
+    pub features: FeatureSel,
+    /// Normalized coordinates, one per fvar axis; empty = default location.
+    pub coords: Vec<f64>,
+    pub gsub: bool,
+    pub gpos: bool,
+}
+
+impl ShapeRequest {
+    /// All features of (script, lang), GSUB and GPOS, default location.
+    pub fn all(script: &str, lang: &str) -> Self {
+        ShapeRequest {
+            script: script.to_string(),
+            lang: lang.to_string(),
+            features: FeatureSel::All,
+            coords: Vec::new(),
+            gsub: true,
+            gpos: true,
+        }
+    }
+}
+
+#[derive(Clone, Debug, PartialEq, Serialize, Deserialize)]
+pub struct ShapeResult {
+    pub glyphs: Vec<ShapedGlyph>,
+    /// Lookups that were selected, in application order.
+    pub lookups_selected: Vec<(Table, u16)>,
+    /// The subset of `lookups_selected` that matched at least once.
+    pub lookups_applied: Vec<(Table, u16)>,
+    /// Parse failures, exhausted budgets, unsupported formats. Empty on a clean run; a
+    /// check should treat a non-empty list as a machinery problem or a malformed font.
+    pub problems: Vec<String>,
+}
+
+impl ShapeResult {
+    pub fn gids(&self) -> Vec<u16> {
+        self.glyphs.iter().map(|g| g.gid).collect()
+    }
+
+    /// Offset of glyph `i` accumulated along its attachment chain: its own offset plus
+    /// the offsets of every glyph it is (transitively) attached to. For a mark attached to
+    /// a base that was itself not shifted this equals the mark's own offset.
+    pub fn offset_from_root(&self, i: usize) -> (f64, f64) {
+        let mut x = 0.0;
+        let mut y = 0.0;
+        let mut cur = Some(i);
+        let mut steps = 0;
+        while let Some(k) = cur {
+            let Some(g) = self.glyphs.get(k) else { break };
+            x += g.x_offset;
+            y += g.y_offset;
+            cur = g.attached_to;
+            steps += 1;
+            if steps > self.glyphs.len() {
+                break; // malformed chain; cannot happen with chains built by this engine
+            }
+        }
+        (x, y)
+    }
+}
+
+/// Result of applying one lookup over a buffer.
+#[derive(Clone, Debug, Default, PartialEq)]
+pub struct ApplyReport {
+    /// The lookup matched at least once.
+    pub applied: bool,
+    pub problems: Vec<String>,
+}
+
+/// Which kind of attachment subtable an enumerated anchor pair comes from.
+#[derive(Clone, Copy, Debug, PartialEq, Eq, Serialize, Deserialize)]
+pub enum MarkAttachKind {
+    /// GPOS 4
+    Base,
+    /// GPOS 5
+    Ligature,
+    /// GPOS 6
+    Mark,
+}
+
+/// One (base glyph, component, mark glyph) combination a mark attachment subtable
+/// provides anchors for.
+#[derive(Clone, Debug, PartialEq, Serialize, Deserialize)]
+pub struct MarkAttachment {
+    pub lookup_index: u16,
+    pub subtable_index: usize,
+    pub kind: MarkAttachKind,
+    pub base_gid: u16,
+    /// 0-based ligature component; 0 for mark-to-base and mark-to-mark.
+    pub component: u16,
+    pub mark_class: u16,
+    /// Base (or ligature component, or mark2) anchor at `coords`.
+    pub base_anchor: (f64, f64),
+    pub mark_gid: u16,
+    pub mark_anchor: (f64, f64),
+}
+
+/// One feature of a language system, after FeatureVariations substitution.
+#[derive(Clone, Debug, PartialEq, Serialize, Deserialize)]
+pub struct FeatureEntry {
+    /// Index into the FeatureList.
+    pub index: u16,
+    pub tag: String,
+    pub lookups: Vec<u16>,
+    /// This is the language system's required feature.
+    pub required: bool,
+    /// The lookup list comes from a FeatureTableSubstitution.
+    pub substituted: bool,
+}
+
+/// A font opened for layout application.
+pub struct LFont<'a> {
+    pub(crate) font: FontRef<'a>,
+    pub(crate) gsub: Option<Gsub<'a>>,
+    pub(crate) gpos: Option<Gpos<'a>>,
+    pub(crate) glyph_classes: Option<ClassDef<'a>>,
+    pub(crate) mark_attach_classes: Option<ClassDef<'a>>,
+    pub(crate) mark_sets: Option<MarkGlyphSets<'a>>,
+    pub(crate) var_store: Option<ItemVariationStore<'a>>,
+}
+
+/// Tag as a string without trailing padding spaces ("TRK " -> "TRK").
+pub fn tag_str(tag: Tag) -> String {
+    tag.to_string().trim_end().to_string()
+}
+
+fn tags_equal(tag: Tag, wanted: &str) -> bool {
+    tag_str(tag) == wanted.trim_end()
+}
+
+impl<'a> LFont<'a> {
+    /// Open a font. GSUB, GPOS and GDEF are each optional, but a table that is present and
+    /// does not parse is an error.
+    pub fn new(bytes: &'a [u8]) -> Result<Self, String> {
+        let font = FontRef::new(bytes).map_err(|e| format!("sfnt: {e}"))?;
+        let has = |tag: &[u8; 4]| font.table_data(Tag::new(tag)).is_some();
+        let gsub = if has(b"GSUB") {
+            Some(font.gsub().map_err(|e| format!("GSUB: {e}"))?)
+        } else {
+            None
+        };
+        let gpos = if has(b"GPOS") {
+            Some(font.gpos().map_err(|e| format!("GPOS: {e}"))?)
+        } else {
+            None
+        };
+        let gdef: Option<Gdef<'a>> = if has(b"GDEF") {
+            Some(font.gdef().map_err(|e| format!("GDEF: {e}"))?)
+        } else {
+            None
+        };
+        let mut glyph_classes = None;
+        let mut mark_attach_classes = None;
+        let mut mark_sets = None;
+        let mut var_store = None;
+        if let Some(gdef) = &gdef {
+            if let Some(r) = gdef.glyph_class_def() {
+                glyph_classes = Some(r.map_err(|e| format!("GDEF GlyphClassDef: {e}"))?);
+            }
+            if let Some(r) = gdef.mark_attach_class_def() {
+                mark_attach_classes =
+                    Some(r.map_err(|e| format!("GDEF MarkAttachClassDef: {e}"))?);
+            }
+            if let Some(r) = gdef.mark_glyph_sets_def() {
+                mark_sets = Some(r.map_err(|e| format!("GDEF MarkGlyphSets: {e}"))?);
+            }
+            if let Some(r) = gdef.item_var_store() {
+                var_store = Some(r.map_err(|e| format!("GDEF ItemVariationStore: {e}"))?);
+            }
+        }
+        Ok(LFont {
+            font,
+            gsub,
+            gpos,
+            glyph_classes,
+            mark_attach_classes,
+            mark_sets,
+            var_store,
+        })
+    }
+
+    pub fn has_table(&self, table: Table) -> bool {
+        match table {
+            Table::Gsub => self.gsub.is_some(),
+            Table::Gpos => self.gpos.is_some(),
+        }
+    }
+
+    /// Number of lookups in the table's LookupList (0 if the table is absent).
+    pub fn lookup_count(&self, table: Table) -> u16 {
+        match table {
+            Table::Gsub => self
+                .gsub
+                .as_ref()
+                .and_then(|t| t.lookup_list().ok())
+                .map(|l| l.lookup_count())
+                .unwrap_or(0),
+            Table::Gpos => self
+                .gpos
+                .as_ref()
+                .and_then(|t| t.lookup_list().ok())
+                .map(|l| l.lookup_count())
+                .unwrap_or(0),
+        }
+    }
+
+    /// (lookup type, lookup flag, mark filtering set) of a lookup; the type is the
+    /// extension's inner type for extension lookups.
+    pub fn lookup_info(&self, table: Table, lookup_index: u16) -> Option<(u16, u16, Option<u16>)> {
+        match table {
+            Table::Gsub => {
+                let l = self.gsub_lookup(lookup_index).ok()?;
+                let ty = gsub::effective_type(&l);
+                Some((ty, l.lookup_flag().to_bits(), l.mark_filtering_set()))
+            }
+            Table::Gpos => {
+                let l = self.gpos_lookup(lookup_index).ok()?;
+                let ty = gpos::effective_type(&l);
+                Some((ty, l.lookup_flag().to_bits(), l.mark_filtering_set()))
+            }
+        }
+    }
+
+    // ----------------------------------------------------------------- GDEF
+
+    /// GDEF glyph class (1 base, 2 ligature, 3 mark, 4 component; 0 if none).
+    pub fn glyph_class(&self, gid: u16) -> u16 {
+        match &self.glyph_classes {
+            Some(cd) => cov::class_of(cd, gid),
+            None => 0,
+        }
+    }
+
+    /// Whether GDEF has a GlyphClassDef at all.
+    pub fn has_glyph_classes(&self) -> bool {
+        self.glyph_classes.is_some()
+    }
+
+    /// GDEF mark attachment class (0 if none).
+    pub fn mark_attach_class(&self, gid: u16) -> u16 {
+        match &self.mark_attach_classes {
+            Some(cd) => cov::class_of(cd, gid),
+            None => 0,
+        }
+    }
+
+    /// Whether `gid` is in GDEF mark glyph set `set`. A missing set contains nothing.
+    pub fn in_mark_set(&self, set: u16, gid: u16) -> bool {
+        let Some(sets) = &self.mark_sets else {
+            return false;
+        };
+        match sets.coverages().get(set as usize) {
+            Ok(c) => cov::coverage_index(&c, gid).is_some(),
+            Err(_) => false,
+        }
+    }
+
+    /// Delta for a VariationIndex (outer, inner) at `coords`, from GDEF's store.
+    pub fn var_delta(&self, outer: u16, inner: u16, coords: &[f64]) -> Result<f64, String> {
+        match &self.var_store {
+            Some(store) => ivs::delta(store, outer, inner, coords),
+            None => Err("VariationIndex present but GDEF has no ItemVariationStore".into()),
+        }
+    }
+
+    /// Default-location hmtx advance (used by cursive attachment only).
+    pub(crate) fn hmtx_advance(&self, gid: u16) -> f64 {
+        self.font
+            .hmtx()
+            .ok()
+            .and_then(|h| h.advance(write_fonts::read::types::GlyphId::new(gid as u32)))
+            .unwrap_or(0) as f64
+    }
+
+    // ------------------------------------------------ scripts and features
+
+    fn script_list(&self, table: Table) -> Option<ScriptList<'a>> {
+        match table {
+            Table::Gsub => self.gsub.as_ref()?.script_list().ok(),
+            Table::Gpos => self.gpos.as_ref()?.script_list().ok(),
+        }
+    }
+
+    fn feature_list(&self, table: Table) -> Option<FeatureList<'a>> {
+        match table {
+            Table::Gsub => self.gsub.as_ref()?.feature_list().ok(),
+            Table::Gpos => self.gpos.as_ref()?.feature_list().ok(),
+        }
+    }
+
+    fn feature_variations(&self, table: Table) -> Option<FeatureVariations<'a>> {
+        match table {
+            Table::Gsub => self.gsub.as_ref()?.feature_variations()?.ok(),
+            Table::Gpos => self.gpos.as_ref()?.feature_variations()?.ok(),
+        }
+    }
+
+    /// Scripts of the table with their language systems, in table order. The default
+    /// language system is listed as "dflt" (first) when present.
+    pub fn scripts(&self, table: Table) -> Vec<(String, Vec<String>)> {
+        let mut out = Vec::new();
+        let Some(list) = self.script_list(table) else {
+            return out;
+        };
+        for rec in list.script_records() {
+            let mut langs = Vec::new();
+            if let Ok(script) = rec.script(list.offset_data()) {
+                if script.default_lang_sys().is_some() {
+                    langs.push("dflt".to_string());
+                }
+                for l in script.lang_sys_records() {
+                    langs.push(tag_str(l.lang_sys_tag()));
+                }
+            }
+            out.push((tag_str(rec.script_tag()), langs));
+        }
+        out
+    }
+
+    /// Language system selection: requested script, else "DFLT"; requested language, else
+    /// the script's default language system. "dflt" as `lang` selects the default
+    /// language system directly.
+    fn select_lang_sys(&self, table: Table, script: &str, lang: &str) -> Option<LangSys<'a>> {
+        let list = self.script_list(table)?;
+        let find = |wanted: &str| {
+            list.script_records()
+                .iter()
+                .find(|r| tags_equal(r.script_tag(), wanted))
+        };
+        let rec = find(script).or_else(|| find("DFLT"))?;
+        let script = rec.script(list.offset_data()).ok()?;
+        if lang.trim_end() != "dflt" {
+            for l in script.lang_sys_records() {
+                if tags_equal(l.lang_sys_tag(), lang) {
+                    return l.lang_sys(script.offset_data()).ok();
+                }
+            }
+        }
+        script.default_lang_sys()?.ok()
+    }
+
+    /// The features of (script, lang) in feature-index order, with FeatureVariations
+    /// applied at `coords` (empty = default location). The required feature, if any, is
+    /// included and flagged.
+    pub fn feature_entries(
+        &self,
+        table: Table,
+        script: &str,
+        lang: &str,
+        coords: &[f64],
+    ) -> Vec<FeatureEntry> {
+        let mut out = Vec::new();
+        let Some(langsys) = self.select_lang_sys(table, script, lang) else {
+            return out;
+        };
+        let Some(features) = self.feature_list(table) else {
+            return out;
+        };
+        let substitutions = self.feature_variation_at(table, coords).unwrap_or_default();
+        let required = langsys.required_feature_index();
+        let mut indices: Vec<u16> = langsys.feature_indices().iter().map(|i| i.get()).collect();
+        if required != 0xFFFF {
+            indices.push(required);
+        }
+        indices.sort();
+        indices.dedup();
+        for index in indices {
+            let Some(rec) = features.feature_records().get(index as usize) else {
+                continue;
+            };
+            let (lookups, substituted) =
+                match substitutions.iter().find(|(fi, _)| *fi == index) {
+                    Some((_, lookups)) => (lookups.clone(), true),
+                    None => match rec.feature(features.offset_data()) {
+                        Ok(f) => (
+                            f.lookup_list_indices().iter().map(|i| i.get()).collect(),
+                            false,
+                        ),
+                        Err(_) => (Vec::new(), false),
+                    },
+                };
+            out.push(FeatureEntry {
+                index,
+                tag: tag_str(rec.feature_tag()),
+                lookups,
+                required: index == required,
+                substituted,
+            });
+        }
+        out
+    }
+
+    /// `(tag, lookup indices)` of the features of (script, lang) in feature-index order.
+    /// See [`LFont::feature_entries`].
+    pub fn features_for(
+        &self,
+        table: Table,
+        script: &str,
+        lang: &str,
+        coords: &[f64],
+    ) -> Vec<(String, Vec<u16>)> {
+        self.feature_entries(table, script, lang, coords)
+            .into_iter()
+            .map(|e| (e.tag, e.lookups))
+            .collect()
+    }
+
+    /// FeatureVariations at `coords`: the `(feature index, substituted lookup list)` pairs
+    /// of the *first* record whose condition set holds, or `None` if there is no
+    /// FeatureVariations table or no record matches.
+    ///
+    /// A condition (format 1) holds when `min <= coord[axis] <= max`, a missing coordinate
+    /// counting as 0; a record without a condition set always matches. Formats 3/4/5
+    /// (and / or / negate) are evaluated recursively; format 2 never holds.
+    pub fn feature_variation_at(&self, table: Table, coords: &[f64]) -> Option<Vec<(u16, Vec<u16>)>> {
+        let fv = self.feature_variations(table)?;
+        for rec in fv.feature_variation_records() {
+            let holds = match rec.condition_set(fv.offset_data()) {
+                None => true,
+                Some(Ok(set)) => condition_set_holds(&set, coords),
+                Some(Err(_)) => false,
+            };
+            if !holds {
+                continue;
+            }
+            let mut out = Vec::new();
+            if let Some(Ok(subst)) = rec.feature_table_substitution(fv.offset_data()) {
+                for s in subst.substitutions() {
+                    if let Ok(feature) = s.alternate_feature(subst.offset_data()) {
+                        out.push((
+                            s.feature_index(),
+                            feature.lookup_list_indices().iter().map(|i| i.get()).collect(),
+                        ));
+                    }
+                }
+            }
+            return Some(out);
+        }
+        None
+    }
+
+    /// Number of FeatureVariations records (0 if none).
+    pub fn feature_variation_record_count(&self, table: Table) -> usize {
+        self.feature_variations(table)
+            .map(|fv| fv.feature_variation_records().len())
+            .unwrap_or(0)
+    }
+
+    /// The lookups `shape` would apply for this request and table: union over the selected
+    /// features, ascending, deduplicated.
+    pub fn collect_lookups(&self, table: Table, req: &ShapeRequest) -> Vec<u16> {
+        let mut lookups: Vec<u16> = Vec::new();
+        for f in self.feature_entries(table, &req.script, &req.lang, &req.coords) {
+            let on = match &req.features {
+                FeatureSel::All => true,
+                FeatureSel::Only(tags) => tags.iter().any(|t| t.trim_end() == f.tag),
+                FeatureSel::DefaultOnPlus(tags) => {
+                    f.required
+                        || DEFAULT_ON_FEATURES.contains(&f.tag.as_str())
+                        || tags.iter().any(|t| t.trim_end() == f.tag)
+                }
+            };
+            if on {
+                lookups.extend(f.lookups);
+            }
+        }
+        lookups.sort();
+        lookups.dedup();
+        lookups
+    }
+
+    // ------------------------------------------------------------- applying
+
+    /// Apply GSUB, then GPOS, to `glyphs` as described in the crate documentation.
+    pub fn shape(&self, req: &ShapeRequest, glyphs: &[u16]) -> ShapeResult {
+        let mut buffer = Buffer::from_glyphs(glyphs);
+        let mut result = ShapeResult {
+            glyphs: Vec::new(),
+            lookups_selected: Vec::new(),
+            lookups_applied: Vec::new(),
+            problems: Vec::new(),
+        };
+        for (table, enabled) in [(Table::Gsub, req.gsub), (Table::Gpos, req.gpos)] {
+            if !enabled || !self.has_table(table) {
+                continue;
+            }
+            for lookup_index in self.collect_lookups(table, req) {
+                result.lookups_selected.push((table, lookup_index));
+                let report = self.apply_lookup(table, lookup_index, &mut buffer, &req.coords);
+                if report.applied {
+                    result.lookups_applied.push((table, lookup_index));
+                }
+                result.problems.extend(report.problems);
+            }
+        }
+        result.glyphs = buffer.glyphs;
+        result
+    }
+
+    /// Apply exactly one lookup over the whole buffer (left to right; GSUB type 8 right to
+    /// left), regardless of features.
+    pub fn apply_lookup(
+        &self,
+        table: Table,
+        lookup_index: u16,
+        buffer: &mut Buffer,
+        coords: &[f64],
+    ) -> ApplyReport {
+        let mut applier = apply::Applier::new(self, table, coords);
+        let applied = applier.apply_whole(lookup_index, buffer);
+        ApplyReport {
+            applied,
+            problems: applier.problems,
+        }
+    }
+
+    /// The alternates a GSUB type 3 lookup offers for `gid` (`shape` always picks the first).
+    pub fn alternates(&self, lookup_index: u16, gid: u16) -> Option<Vec<u16>> {
+        gsub::alternates(self, lookup_index, gid)
+    }
+
+    /// Horizontal distance change between `g1` and `g2` caused by feature `tag` under
+    /// (script, lang) at `coords`: shape `[g1, g2]` with only that feature of GPOS and
+    /// return `x_advance_adj(g1) + x_offset(g2)`, unrounded.
+    pub fn pair_adjustment(
+        &self,
+        script: &str,
+        lang: &str,
+        tag: &str,
+        g1: u16,
+        g2: u16,
+        coords: &[f64],
+    ) -> f64 {
+        let req = ShapeRequest {
+            script: script.to_string(),
+            lang: lang.to_string(),
+            features: FeatureSel::Only(vec![tag.to_string()]),
+            coords: coords.to_vec(),
+            gsub: false,
+            gpos: true,
+        };
+        let r = self.shape(&req, &[g1, g2]);
+        r.glyphs[0].x_advance_adj + r.glyphs[1].x_offset
+    }
+
+    /// Every anchor pair offered by the mark-to-base / mark-to-ligature / mark-to-mark
+    /// subtables of GPOS (including those behind extension lookups), evaluated at `coords`.
+    /// One entry per (base glyph, component, mark glyph) whose base anchor for the mark's
+    /// class is present. Order: lookup, subtable, base coverage order, component, mark
+    /// coverage order.
+    pub fn mark_attachments(&self, coords: &[f64]) -> Vec<MarkAttachment> {
+        gpos::enumerate_mark_attachments(self, coords).0
+    }
+
+    /// As [`LFont::mark_attachments`], also returning parse problems met on the way.
+    pub fn mark_attachments_checked(&self, coords: &[f64]) -> (Vec<MarkAttachment>, Vec<String>) {
+        gpos::enumerate_mark_attachments(self, coords)
+    }
+}
+
+fn condition_set_holds(set: &ConditionSet, coords: &[f64]) -> bool {
+    // all conditions must hold; an empty set holds
+    for c in set.conditions().iter() {
+        match c {
+            Ok(c) => {
+                if !condition_holds(&c, coords, 0) {
+                    return false;
+                }
+            }
+            Err(_) => return false,
+        }
+    }
+    true
+}
+
+fn condition_holds(c: &Condition, coords: &[f64], depth: u32) -> bool {
+    if depth > 8 {
+        return false;
+    }
+    match c {
+        Condition::Format1AxisRange(c) => {
+            let v = coords.get(c.axis_index() as usize).copied().unwrap_or(0.0);
+            let min = c.filter_range_min_value().to_bits() as f64 / 16384.0;
+            let max = c.filter_range_max_value().to_bits() as f64 / 16384.0;
+            min <= v && v <= max
+        }
+        Condition::Format2VariableValue(_) => false,
+        Condition::Format3And(c) => c
+            .conditions()
+            .iter()
+            .all(|x| x.map(|x| condition_holds(&x, coords, depth + 1)).unwrap_or(false)),
+        Condition::Format4Or(c) => c
+            .conditions()
+            .iter()
+            .any(|x| x.map(|x| condition_holds(&x, coords, depth + 1)).unwrap_or(false)),
+        Condition::Format5Negate(c) => match c.condition() {
+            Ok(x) => !condition_holds(&x, coords, depth + 1),
+            Err(_) => false,
+        },
+    }
+}
